@@ -5,7 +5,10 @@ package main
 
 import (
 	"fmt"
+	"runtime"
+	"runtime/debug"
 	"strconv"
+	"syscall"
 	"unsafe"
 
 	"github.com/cloudwego/gopkg/unsafex"
@@ -22,6 +25,10 @@ var (
 	sinkStr   string // forces the big string onto the heap
 	sinkBytes []byte
 )
+
+// strOver: the string occupying the bytes of *b (data pointer and length of the slice header; made by the harness,
+// not by the code under test)
+func strOver(b *[]byte) string { return *(*string)(unsafe.Pointer(b)) }
 
 func same(ok bool) string {
 	if ok {
@@ -101,8 +108,192 @@ func runS2B(obj string, off, ln int, extra []byte) string {
 	})
 }
 
+// ---------------------------------------------------------------- usx big: lengths around 2^30 / 2^31
+
+// zeroPages returns n bytes of memory that is only reserved: untouched pages of an anonymous mapping cost no
+// resident memory (fallback: a fresh make, whose pages are just as untouched). release gives it back at once.
+func zeroPages(n int) (mem []byte, release func()) {
+	m, err := syscall.Mmap(-1, 0, n, syscall.PROT_READ|syscall.PROT_WRITE,
+		syscall.MAP_ANON|syscall.MAP_PRIVATE|syscall.MAP_NORESERVE)
+	if err == nil {
+		return m, func() { syscall.Munmap(m) }
+	}
+	mem = make([]byte, n)
+	return mem, func() { debug.FreeOSMemory() }
+}
+
+const (
+	bigMaxLen  = 1 << 33
+	bigMaxSide = 1 << 16
+)
+
+// runBig: w = obj[off : off+ln : off+ln+spare] inside an object of off+ln+spare zero bytes, `mark` written at both ends
+// of the window (nothing else is ever touched). b2s: s = BinaryToString(w); s2b: b = StringToBinary(the string
+// occupying w's bytes, a substring of the string occupying the whole object). Reported: len (cap), pointer
+// equality, the marker bytes read through the result - and again after they were flipped through w.
+func runBig(conv string, off, ln, spare int, mark []byte) string {
+	k := len(mark)
+	if (conv != "b2s" && conv != "s2b") || k < 1 || k > 8 || ln < 2*k || ln > bigMaxLen ||
+		off < 0 || off > bigMaxSide || spare < 0 || spare > bigMaxSide {
+		return "bad-op"
+	}
+	mem, release := zeroPages(off + ln + spare)
+	defer release()
+	return lib.Guard(func() string {
+		w := mem[off : off+ln : off+ln+spare]
+		copy(w, mark)
+		copy(w[ln-k:], mark)
+		flip := func() {
+			for i := 0; i < k; i++ {
+				w[i] ^= 0xff
+				w[ln-k+i] ^= 0xff
+			}
+		}
+		if conv == "b2s" {
+			s := unsafex.BinaryToString(w)
+			ends := func() (string, string) {
+				if len(s) < k {
+					return "-", "-"
+				}
+				return lib.Hex([]byte(s[:k])), lib.Hex([]byte(s[len(s)-k:]))
+			}
+			ptr := same(strData(&s) == sliceData(&w))
+			h, t := ends()
+			flip()
+			ah, at := ends()
+			return fmt.Sprintf("len=%d ptr=%s head=%s tail=%s ahead=%s atail=%s", len(s), ptr, h, t, ah, at)
+		}
+		s := strOver(&w)
+		b := unsafex.StringToBinary(s)
+		ends := func() (string, string) {
+			if len(b) < k {
+				return "-", "-"
+			}
+			return lib.Hex(b[:k]), lib.Hex(b[len(b)-k:])
+		}
+		ptr := same(sliceData(&b) == strData(&s))
+		h, t := ends()
+		flip()
+		ah, at := ends()
+		return fmt.Sprintf("len=%d cap=%d ptr=%s head=%s tail=%s ahead=%s atail=%s", len(b), cap(b), ptr, h, t, ah, at)
+	})
+}
+
+// ---------------------------------------------------------------- usx stk: the source lives in a local array
+
+const stkN = 64
+
+var (
+	keptStr   string // the converted value outlives the function that made it
+	keptBytes []byte
+)
+
+//go:noinline
+func deepFrames(n int) int {
+	var pad [1024]byte
+	pad[n%len(pad)] = byte(n)
+	if n == 0 {
+		return int(pad[0])
+	}
+	return deepFrames(n-1) + int(pad[n%len(pad)])
+}
+
+// stkB2S / stkS2B run on a fresh goroutine (small stack). The source is a window of a LOCAL array; the converted
+// value is kept in a package-level variable; then `depth` frames of 1 KiB make the stack grow (= move). Only
+// afterwards the value is read (content), the source is flipped and the value is read again (after).
+// With the code as it is the array escapes to the heap and nothing depends on the stack.
+//
+//go:noinline
+func stkB2S(obj []byte, off, ln, depth int) string {
+	var buf [stkN]byte
+	copy(buf[:], obj)
+	b := buf[off : off+ln]
+	keptStr = unsafex.BinaryToString(b)
+	l0 := len(keptStr)
+	deepFrames(depth)
+	content := lib.Hex([]byte(keptStr))
+	ptr := "-"
+	if ln > 0 {
+		ptr = same(uintptr(strData(&keptStr)) == uintptr(unsafe.Pointer(&buf[off])))
+	}
+	for i := range b {
+		b[i] ^= 0xff
+	}
+	after := lib.Hex([]byte(keptStr))
+	keptStr = ""
+	return fmt.Sprintf("content=%s len=%d ptr=%s after=%s", content, l0, ptr, after)
+}
+
+//go:noinline
+func stkS2B(obj []byte, off, ln, depth int) string {
+	var buf [stkN]byte
+	copy(buf[:], obj)
+	b := buf[off : off+ln]
+	s := strOver(&b) // the string occupying the window (substring of the one occupying buf)
+	keptBytes = unsafex.StringToBinary(s)
+	l0, c0 := len(keptBytes), cap(keptBytes)
+	deepFrames(depth)
+	content := lib.Hex(keptBytes)
+	ptr := "-"
+	if ln > 0 {
+		ptr = same(uintptr(sliceData(&keptBytes)) == uintptr(unsafe.Pointer(&buf[off])))
+	}
+	for i := range b {
+		b[i] ^= 0xff
+	}
+	after := lib.Hex(keptBytes)
+	keptBytes = nil
+	return fmt.Sprintf("content=%s len=%d cap=%d ptr=%s after=%s", content, l0, c0, ptr, after)
+}
+
+func runStk(conv string, obj []byte, off, ln, depth int) string {
+	if (conv != "b2s" && conv != "s2b") || len(obj) > stkN || off < 0 || ln < 0 || off+ln > len(obj) ||
+		depth < 0 || depth > 8192 {
+		return "bad-op"
+	}
+	// no collection while a kept value may point into a stack (a changed conversion must show up in the result
+	// line, not as a runtime crash): finish one now, none until the operation is over
+	runtime.GC()
+	defer debug.SetGCPercent(debug.SetGCPercent(-1))
+	return lib.Guard(func() string { // lib.Guard runs it on a new goroutine
+		if conv == "b2s" {
+			return stkB2S(obj, off, ln, depth)
+		}
+		return stkS2B(obj, off, ln, depth)
+	})
+}
+
+func atois(ts ...string) ([]int, bool) {
+	out := make([]int, len(ts))
+	for i, t := range ts {
+		v, err := strconv.Atoi(t)
+		if err != nil {
+			return nil, false
+		}
+		out[i] = v
+	}
+	return out, true
+}
+
 func runOp(f []string) (string, bool) {
-	if len(f) != 6 || f[0] != "usx" {
+	if len(f) < 2 || f[0] != "usx" {
+		return "", false
+	}
+	switch {
+	case f[1] == "big" && len(f) == 7: // usx big <conv> <off> <len> <spare> <mark>
+		v, ok := atois(f[3], f[4], f[5])
+		if !ok {
+			return "bad-op", true
+		}
+		return runBig(f[2], v[0], v[1], v[2], lib.UnHex(f[6])), true
+	case f[1] == "stk" && len(f) == 7: // usx stk <conv> <obj> <off> <len> <depth>
+		v, ok := atois(f[4], f[5], f[6])
+		if !ok {
+			return "bad-op", true
+		}
+		return runStk(f[2], lib.UnHex(f[3]), v[0], v[1], v[2]), true
+	}
+	if len(f) != 6 {
 		return "", false
 	}
 	switch f[1] {
@@ -232,6 +423,68 @@ func genCases(o *lib.Opts) {
 		}())
 	}
 	genLarge(o, r)
+	genStack(o, r)
+	genBig(o, r)
+}
+
+// genStack: both conversions on a source in a local array of a fresh goroutine, the result kept beyond the function,
+// the stack moved before the result is looked at (seeded change C20/patch1: a noescape helper let the source stay
+// on the stack, the kept string then pointed at the old stack)
+func genStack(o *lib.Opts, r *lib.Rng) {
+	depths := []int{0, 3, 40, 300, 2048}
+	reps := 4
+	if o.Tier == "thorough" {
+		reps = 40
+	}
+	for _, conv := range []string{"b2s", "s2b"} {
+		for _, L := range []int{1, 5, 16, 31, 32, 33, stkN} {
+			for _, d := range depths {
+				obj := r.Bytes(L)
+				emit("usx", "stk", conv, lib.Hex(obj), "0", itoa(L), itoa(d))
+				em.Count("stk:" + conv + ":whole")
+			}
+		}
+		for i := 0; i < reps*len(depths); i++ {
+			L := r.Range(1, stkN)
+			obj := r.Bytes(L)
+			off := r.Intn(L + 1)
+			ln := r.Intn(L - off + 1)
+			d := depths[i%len(depths)]
+			if r.Chance(1, 3) {
+				d = r.Range(1, 4096)
+			}
+			emit("usx", "stk", conv, lib.Hex(obj), itoa(off), itoa(ln), itoa(d))
+			em.Count("stk:" + conv + ":window")
+			if ln == 0 {
+				em.Count("stk:" + conv + ":len=0")
+			}
+		}
+	}
+}
+
+// genBig: lengths around the powers of two where an array-typed view, an int32 or a uint32 length would give way
+// (seeded change C20/patch2: StringToBinary through a *[1<<30]byte panicked above 1 GiB). Memory is only reserved.
+func genBig(o *lib.Opts, r *lib.Rng) {
+	lens := []int{1<<30 - 1, 1 << 30, 1<<30 + 1, 1 << 31}
+	if o.Tier == "thorough" {
+		lens = append(lens, 1<<29+1, 1<<31-1, 1<<31+1, 1<<32-1, 1<<32, 1<<32+1)
+	}
+	for _, n := range lens {
+		for _, conv := range []string{"b2s", "s2b"} {
+			mark := r.Bytes(r.Pick(1, 4, 8))
+			emit("usx", "big", conv, "0", itoa(n), "0", lib.Hex(mark))
+			em.Count("big:" + conv + ":whole")
+		}
+	}
+	// a window inside a larger object: spare capacity behind the slice / bytes of the big string around the substring
+	for i := 0; i < 2; i++ {
+		n := lens[r.Intn(len(lens))] + r.Pick(-2, 0, 2, 4096)
+		for _, conv := range []string{"b2s", "s2b"} {
+			mark := r.Bytes(r.Pick(2, 4, 8))
+			emit("usx", "big", conv, itoa(r.Pick(1, 3, 4096)), itoa(n), itoa(r.Pick(1, 7, 65536)), lib.Hex(mark))
+			em.Count("big:" + conv + ":window")
+		}
+	}
 }
 
 func replay(lines [][]string) {
